@@ -1,13 +1,11 @@
-import YaclibModel.Proofs.CoSharedMutex
+import YaclibModel.Proofs.CoSharedMutexS_runR_1
+import YaclibModel.Proofs.CoSharedMutexS_runR_2
 namespace Yaclib.CoSharedMutex
 
-set_option maxHeartbeats 4000000 in
 theorem inv_runR {cfg : Cfg} {s : State} (hi : Inv cfg s) (c : Cid) (n : Cid) (rest : List Cid) (h : s.pc c = .uRunR) (ht : s.torun = n :: rest) :
     Inv cfg ((doRunR s c n rest)) := by
-  have ⟨hn, hnr⟩ := head_pc_torun hi ht
-  cases hi
   by_cases hr : rest = []
-  · simp only [doRunR, hr, ↓reduceIte]; sm_auto [List.count_le_length]
-  · simp only [doRunR, hr, ↓reduceIte]; sm_auto [List.count_le_length]
+  · exact inv_runR_1 hi c n rest h ht hr
+  · exact inv_runR_2 hi c n rest h ht hr
 
 end Yaclib.CoSharedMutex
